@@ -11,7 +11,14 @@ GNext ==
      \* a Parse..Sync batch; delivery "flush": the client sends Flush after the last message and Sync afterwards
      \/ \E s \in Shapes, d \in {"", "flush"} : batch = <<>> /\ n < MaxMsgs /\ n' = n + 1
            /\ H([op |-> "batch", arg |-> d, kinds |-> SeqOf(s)])
-           /\ UNCHANGED <<roleSel, inTx, verdict, batch, fwd, replies>>
+           /\ UNCHANGED <<roleSel, inTx, verdict, batch, fwd, replies, named, pendName>>
+     \* statement caching on: one named Parse + Sync, and later Bind(name) Execute Sync
+     \/ \E k \in Kinds : batch = <<>> /\ n < MaxMsgs /\ n' = n + 1 /\ named' = k
+           /\ H([op |-> "batch", arg |-> "named", kinds |-> <<k>>])
+           /\ UNCHANGED <<roleSel, inTx, verdict, batch, fwd, replies, pendName>>
+     \/ named # "none" /\ batch = <<>> /\ n < MaxMsgs /\ n' = n + 1
+           /\ H([op |-> "bind", arg |-> "", kinds |-> <<named>>])
+           /\ UNCHANGED <<roleSel, inTx, verdict, batch, fwd, replies, named, pendName>>
      \/ Begin /\ H([op |-> "begin", arg |-> "", kinds |-> <<>>])
      \/ Commit /\ H([op |-> "commit", arg |-> "", kinds |-> <<>>])
 GSpec == PInit /\ hist = <<>> /\ [][GNext]_gv
